@@ -25,3 +25,4 @@ class Shape:
     quick: bool = True
     crate_attrs: List[str] = field(default_factory=list)  # crate-level attributes needed (features)
     tags: List[str] = field(default_factory=list)
+    expect_reject: bool = False     # the program must NOT compile (decided by rustc, not by the solver); it has no harnesses
